@@ -42,6 +42,31 @@ def step (s : S) (line : String) : S × String :=
            ({ s with items := o.items }, s!"ok items={fmtList o.items} notifs={";".intercalate (o.notifs.map fmtNotif)}")
          else (s, "bad-op")
        | _, _, _ => (s, "bad-op"))
+    | ["delslice3", a, b, k] =>
+      (match a.toNat?, b.toNat?, k.toNat? with
+       | some a, some b, some k =>
+         if s.kind == .list then
+           let o := delExtStep s.items a b k
+           ({ s with items := o.items }, s!"ok items={fmtList o.items} notifs={";".intercalate (o.notifs.map fmtNotif)}")
+         else (s, "bad-op")
+       | _, _, _ => (s, "bad-op"))
+    | "setslice3" :: a :: b :: k :: ys =>
+      (match a.toNat?, b.toNat?, k.toNat?, ys.mapM String.toNat? with
+       | some a, some b, some k, some ys =>
+         if s.kind == .list then
+           let o := setExtStep s.items a b k ys
+           ({ s with items := o.items },
+            (if o.raised then "err" else "ok") ++ s!" items={fmtList o.items} notifs={";".intercalate (o.notifs.map fmtNotif)}")
+         else (s, "bad-op")
+       | _, _, _, _ => (s, "bad-op"))
+    | ["imul", n] =>
+      (match n.toInt? with
+       | some n =>
+         if s.kind == .list then
+           let r := slotRun .list (imulOps s.items n) s.items
+           ({ s with items := r.1 }, s!"ok items={fmtList r.1} notifs={";".intercalate (r.2.map fmtNotif)}")
+         else (s, "bad-op")
+       | none => (s, "bad-op"))
     | _ =>
     match parseOp ws with
     | none => (s, "bad-op")
